@@ -43,7 +43,7 @@ class V(int):
     yield V(int(self))
 
   def __call__(self, *a, **k):
-    print('call', int(self), [_norm(x) for x in a], sorted(k))
+    print('call', int(self), _norm(list(a)), sorted(k))
     return V(int(self))
 
   def __enter__(self):
@@ -134,6 +134,9 @@ def _norm(v, depth=0):
   if isinstance(v, (float, bytes)):
     return v
   if isinstance(v, (list, tuple)):
+    if len(v) > 8 and all(isinstance(x, str) and len(x) == 1 for x in v):
+      # a string exploded into characters (e.g. `*f"{function}"`): object addresses must not matter
+      return [type(v).__name__, 'chars', _ADDR.sub(' at 0x?', ''.join(v))]
     return [type(v).__name__] + [_norm(x, depth + 1) for x in v]
   if isinstance(v, (set, frozenset)):
     return ['set'] + sorted((_norm(x, depth + 1) for x in v), key=repr)
